@@ -19,6 +19,11 @@ ASSUME = [
     "truncation is systematic, not sampled, for the cheap stateless decoders: for a fixed catalogue of valid multistream "
     "payloads / messages / frames / length prefixes (1- and 2-byte prefixes, one to three messages) every prefix and every "
     "'announced length = available +1 / +2 / + prefix size' variant is run in every tier and for every seed",
+    "usability oracle: every value a decoder returns (peer ids, Kademlia peers and messages, multiaddresses, the noise "
+    "payload's peer id) is pushed through the library's total conversions its consumers apply without further checks "
+    "(to_bytes/from_bytes, base58/Display, Multihash, Protocol::P2p both directions, addresses with the peer id appended, the "
+    "real RoutingTable::add_known_peer, re-encoding as a FIND_NODE response) under catch_unwind; a panic or broken round trip "
+    "there is the outcome `unusable`",
     "a decoder that makes no progress for 120 s (inputs take milliseconds) is reported as a hang",
     "prost, unsigned-varint, multiaddr, cid, multihash, snow are exercised only through litep2p's entry points",
     "the exact outcome per class (Impl layer) is a drift detector only; the verdict is: value or error, no panic, no "
@@ -26,7 +31,7 @@ ASSUME = [
 ]
 
 TRACE = ("DecodersTrace.tla", "DecodersTrace.cfg")
-MC_LINES = ["SPECIFICATION Spec", "INVARIANTS LdConsistent TablesTotal NegotiationSound", "CHECK_DEADLOCK FALSE"]
+MC_LINES = ["SPECIFICATION Spec", "INVARIANTS LdConsistent TablesTotal NegotiationSound DecodedValuesUsable", "CHECK_DEADLOCK FALSE"]
 GEN_LINES = ["SPECIFICATION Spec", "ACTION_CONSTRAINT Emit", "CHECK_DEADLOCK FALSE"]
 SLACK = 65536
 KF_NOMAX = "substream-nomax-attacker-length-panic-or-abort"
@@ -39,7 +44,7 @@ def is_reset(ln):
 def classify(seg, idx):
     ev = json.loads(seg[idx - 1])
     e = ev.get("e")
-    bad = ev.get("out", ev.get("final")) in ("panic", "hang", "abort")
+    bad = ev.get("out", ev.get("final")) in ("panic", "hang", "abort", "unusable")
     over = "alloc" in ev and "limit" in ev and ev["alloc"] > ev["limit"] + SLACK
     why = ev.get("out", ev.get("final")) if bad else ("over-allocation" if over else "unexplained")
     if e == "nomax":
@@ -129,7 +134,7 @@ def check(ctx):
             d = ev.get("dec", ev.get("kind", "ld"))
             if d not in worst or ev["alloc"] - ev["limit"] > worst[d]["alloc"] - worst[d]["limit"]:
                 worst[d] = {"alloc": ev["alloc"], "limit": ev["limit"], "op": ev.get("op", "")}
-    need = ["ld:", "cls:rps", "cls:sub", "cls:msg", "cls:lis", "cls:dia", "nomax:", "pb:kademlia", "pb:bitswap", "pb:identify",
+    need = ["ld:", "cls:kadpid", "cls:rps", "cls:sub", "cls:msg", "cls:lis", "cls:dia", "nomax:", "pb:kademlia", "pb:bitswap", "pb:identify",
             "pb:noise_payload", "pb:public_key", "pb:peer_id", "pb:multiaddr", "pb:mss_message", "pb:cid", "pb:bitswap_prefix",
             "pb:mss_listener", "pb:mss_dialer", "pb:length_delimited", "pb:payload_size", "pb:substream",
             "rt:kademlia", "rt:bitswap", "rt:identify", "rt:mss_message"]
